@@ -269,7 +269,7 @@ Proof.
     + split; [exact R|]. unfold pc_inv2; cbn. lia.
   - (* PLimit *)
     destruct (place (f_limit f) (t_nm t)) as [s e].
-    destruct (W32 <=? e + PAGE); cbn [fst snd]; [apply ret_fail_tinv2; [exact R|reflexivity]|].
+    destruct (W32 <=? round e PAGE); cbn [fst snd]; [apply ret_fail_tinv2; [exact R|reflexivity]|].
     destruct (t_map t <? e); cbn [fst snd]; split; try exact R; exact I.
   - (* EStat *)
     split; [exact R|]. unfold pc_inv2; cbn. lia.
